@@ -210,10 +210,10 @@ Proof.
 Qed.
 
 Theorem locale_group_sound op args r : oracle_model_locale op args = Some r ->
-  beqb op (bs "loc_meta") = false -> beqb op (bs "li_meta") = false ->
+  beqb op (bs "loc_meta") = false -> beqb op (bs "li_meta") = false -> beqb op (bs "ext_meta") = false ->
   passes (oracle_spec_locale op args r).
 Proof.
-  unfold oracle_model_locale, oracle_spec_locale. intros H X2 X3. set (a := arg1 args) in *.
+  unfold oracle_model_locale, oracle_spec_locale. intros H X2 X3 X4. set (a := arg1 args) in *.
   destruct (beqb op (bs "locale")) eqn:E1.
   { apply some_inj in H; subst r. only_op E1. unfold passes, spec_locale_ok.
     destruct (locale_from_bytes_total a) as [[l P]|[e P]]; rewrite P; cbn [fmt_res_e].
@@ -284,7 +284,7 @@ Proof.
   destruct (beqb op (bs "big")) eqn:E12.
   { apply some_inj in H; subst r. only_op E12. reflexivity. }
   destruct (beqb op (bs "facade")) eqn:E13. { only_op E13. exact I. }
-  rewrite X2, X3 in H.
+  rewrite X2, X4, X3 in H.
   destruct (beqb op (bs "loc_matches")) eqn:E14.
   { apply some_inj in H; subst r. only_op E14. unfold passes.
     destruct (spec_locale_zone (split (arg_n 0 args))) eqn:Z0; try reflexivity.
